@@ -104,12 +104,20 @@ def check_base(acc, tag, ast, tier):
                                "why": f"an undeclared keyword argument {n}={v!r} changed the result (without it: {short(repr(want[:3]))})"})  # fmt: skip
                 break
     # (2) experiment renamed
-    for nn in ("other_name", "e", "index"):
+    # (names the generated code itself uses work as experiment names on the pinned tree; Python reserved words do not -
+    # that is known finding KF1 of C07 and they are not used here)
+    for nn in ("other_name", "e", "index", "str", "map", "partial", "deterministic_choice", "choose_experiment_variant", "kwargs",
+               "ExperimentConditionalFailedError", "self", "uid_", "Exp", "exp" * 40):
+        if nn in split or nn in cids:
+            continue
         a2 = ("prog", nn, salt, split, c)
         b2 = impl.build(rp.render(a2))
         acc.add("programs")
         if b2[0] == "ok":
             cmp_eq(acc, "rename", text, rp.render(a2), envs, base, results(b2[1], envs), "renaming the experiment changed an assignment")
+        else:
+            acc.violation({"kind": "dep:rename", "sub": "build", "text": text, "text2": rp.render(a2), "observed": list(b2),
+                           "why": f"the experiment no longer compiles when it is merely renamed to {nn!r}"})  # fmt: skip
     # (3) every permutation of the splitter declaration (<= 4 splitters)
     for perm in permutations(split):
         if perm != tuple(split):
